@@ -55,6 +55,7 @@ pub fn extra_judge(id: &str) -> Option<fn(&World, &RunResult) -> Vec<Violation>>
         "C07" => Some(c07::judge),
         "C08" => Some(c08::judge),
         "C09" => Some(c09::judge),
+        "C12" => Some(c12::size_judge),
         "C14" => Some(c14::judge),
         "C15" => Some(c15::judge),
         "C16" => Some(c16::judge),
@@ -181,6 +182,62 @@ pub fn world_batch(
 
 fn suite_family(s: &str) -> String {
     s.to_string()
+}
+
+/// Determinism self-test: a digest over the complete event logs of a fixed
+/// sample of worlds from every generator. Must not depend on the process, the
+/// worker count or the run.
+pub fn selftest_digest(seed: u64, threads: usize, per: usize) -> (String, usize) {
+    use crate::suite::{SuiteOps, SIM_SUITES};
+    use sha2::{Digest, Sha256};
+    let suites: Vec<&'static dyn SuiteOps> = SIM_SUITES.to_vec();
+    let mut jobs: Vec<(usize, usize, u64)> = vec![];
+    for si in 0..suites.len() {
+        for g in 0..14 {
+            for k in 0..per {
+                jobs.push((si, g, k as u64));
+            }
+        }
+    }
+    let hashes = par_map(jobs.len(), threads, |i| {
+        let (si, g, k) = jobs[i];
+        let s = suites[si];
+        let w = match g {
+            0 => c01::gen_world(seed, k, s, k as usize),
+            1 => c02::gen_world(seed, k, s, k as usize, 8),
+            2 => c03::gen_world(seed, k, s, 0),
+            3 => c04::gen_world(seed, k, s, 0, 4, false),
+            4 => c05::gen_world(seed, k, s, k as usize),
+            5 => c06::gen_world(seed, k, s),
+            6 => c07::gen_world(seed, k, s, k % 2 == 0, Some(8)).world,
+            7 => c08::gen_world(seed, k, s),
+            8 => c09::gen_world(seed, k, s, k as usize),
+            9 => c14::gen_world(seed, k, s),
+            10 => c15::gen_world(seed, k, s, k as usize, false),
+            11 => c16::gen_world(seed, k, s),
+            12 => c13::base_world(seed, k, s, k % 2 == 1),
+            _ => c17::base_world(seed, k, s),
+        };
+        let mut r = run_world(&w);
+        for id in ["C07", "C08", "C09", "C14", "C15", "C16"] {
+            if let Some(j) = extra_judge(id) {
+                if (id == "C07" && g == 6) || (id == "C08" && g == 7) || (id == "C09" && g == 8) || (id == "C14" && g == 9) || (id == "C15" && g == 10) || (id == "C16" && g == 11) {
+                    let more = j(&w, &r);
+                    r.violations.extend(more);
+                }
+            }
+        }
+        let mut h = Sha256::new();
+        h.update(serde_json::to_vec(&w).unwrap());
+        h.update(crate::world::log_hash(&r));
+        let d: [u8; 32] = h.finalize().into();
+        d
+    });
+    let mut h = Sha256::new();
+    for d in &hashes {
+        h.update(d);
+    }
+    (hex::encode(h.finalize()), hashes.len())
 }
 
 /// Replay a case under a property's oracle. Returns the violations seen.
